@@ -13,7 +13,7 @@ the reader's options) to its value, and attaching them one after the other leads
 inductive Runs (m : Model) (e : Enc) : Core → List Rec → Core → Prop
   | nil (c : Core) : Runs m e c [] c
   | cons (c c1 c2 : Core) (k : Kind) (v : Vals) (line : Bytes) (rest : List Rec) :
-      kindOfLine line = some k → minLen line ≤ line.length →
+      kindOfLine line = some k → minLen m e line ≤ line.length →
       recParse m e k line (v0For m c k) = .ok v → pushRec m c k v = some c1 → Runs m e c1 rest c2 →
       Runs m e c ((k, v, line) :: rest) c2
 
@@ -25,7 +25,7 @@ theorem Runs.append {m : Model} {e : Enc} {c c1 c2 : Core} {l1 l2 : List Rec}
     exact Runs.cons c ca c2 k v line (rest ++ l2) hk hl hp hpush (ih h2)
 
 theorem Runs.single {m : Model} {e : Enc} {c c1 : Core} {k : Kind} {v : Vals} {line : Bytes}
-    (hk : kindOfLine line = some k) (hl : minLen line ≤ line.length)
+    (hk : kindOfLine line = some k) (hl : minLen m e line ≤ line.length)
     (hp : recParse m e k line (v0For m c k) = .ok v) (hpush : pushRec m c k v = some c1) :
     Runs m e c [(k, v, line)] c1 :=
   Runs.cons c c1 c1 k v line [] hk hl hp hpush (Runs.nil c1)
@@ -47,7 +47,7 @@ theorem readLines_of_runs (m : Model) (e : Enc) (c' : Core) (recs : List Rec) (s
     obtain ⟨s3, hr, hc3, h1, h2, h3⟩ := ih s2 hc2
     refine ⟨s3, ?_, hc3, ?_, ?_, ?_⟩
     · simp only [List.map_cons, readLines]
-      have : ¬ line.length < minLen line := by omega
+      have : ¬ line.length < minLen m e line := by omega
       simp only [this, if_false]
       show (match rstep m e s1 line with
         | .ok s' => readLines m e (rest.map (·.2.2)) s'
